@@ -422,8 +422,7 @@ theorem findStart_ne_none (s : Bytes) (a lim : Nat) (pre loc : Bytes) (hs : s.ta
 /-- **C14 (completeness for dotted domains, partial).** An address `loc@lbl.d‹run›` — local part of
 address characters ending in a word character, not directly preceded by an address character or '/';
 first domain label of address characters starting with a word character; a dot; a word character;
-address characters up to the first other byte — whose domain is not number-like (first and last byte
-both digits: known finding F-22 makes this wider than "purely numeric") has its '@' inside a redacted
+address characters up to the first other byte — whose domain is not purely numeric (digits and dots only, since the repair of F-22) has its '@' inside a redacted
 span, wherever it sits and whatever surrounds it. -/
 theorem C14_complete_dotted_partial (pre loc lbl run post : Bytes) (d w1 w2 : Nat)
     (hloc : ∀ c ∈ loc, isAddr c = true) (hw1 : loc.getLast? = some w1) (hw1' : isWord w1 = true)
@@ -555,18 +554,19 @@ theorem C14_complete_truncated (pre loc lbl : Bytes) (w1 w2 : Nat) (dot : Bool)
 example : spans (b!"to bob@examp") = [(3, 12)] := by decide
 example : spans (b!"to bob@example.") = [(3, 15)] := by decide
 
-/-! ### deviations from the letter of "domain not purely numeric" (known findings F-22) -/
+/-! ### "domain not purely numeric": the test before the repair of F-22 -/
 
-/-- the letter of the property: digits and dots only -/
+/-- the letter of the property: digits and dots only — what `numLike` is since the repair -/
 def purelyNumeric (d : Bytes) : Bool := !d.isEmpty && d.all (fun c => isDigit c || c = 46)
 
-/-- F-22: a digit-edged domain that is not purely numeric is left in the text -/
-theorem C14_complete_counterexample :
-    purelyNumeric (b!"1and1.de1") = false ∧ redact (b!"bob@1and1.de1") = b!"bob@1and1.de1" := by decide
+theorem C14_numeric_test_is_the_letter (d : Bytes) : numLike d = purelyNumeric d := rfl
 
-/-- a purely numeric single-digit domain at the end of the text is redacted -/
-theorem C14_sound_counterexample :
-    purelyNumeric (b!"5") = true ∧ redact (b!"x@5") = b!"REDACTED" := by decide
+/-- before the repair a digit-edged domain that is not purely numeric counted as numeric (its address stayed in the text) and a
+purely numeric domain of one digit, or one ending in a dot, did not (it was redacted); both are as the property says now -/
+theorem legacy_F22 :
+    numLikeLegacy (b!"1and1.de1") = true ∧ numLike (b!"1and1.de1") = false ∧ redact (b!"bob@1and1.de1") = b!"REDACTED" ∧
+    numLikeLegacy (b!"5") = false ∧ numLike (b!"5") = true ∧ redact (b!"x@5") = b!"x@5" ∧
+    numLikeLegacy (b!"1.2.") = false ∧ redact (b!"x@1.2.") = b!"x@1.2." := by decide
 
 /-- the pre-repair code (no numeric test before a trailing dot) redacted `Trx@123456.`; the repaired model does not -/
 example : redact (b!"Trx@123456.") = b!"Trx@123456." := by decide
